@@ -213,11 +213,17 @@ func (p *parser) parseAdd() Expr { return p.binLevel([]string{"+", "-"}, p.parse
 func (p *parser) parseMul() Expr { return p.binLevel([]string{"*", "div", "mod"}, p.parseUnary) }
 
 func (p *parser) parseUnary() Expr {
-	if p.isOp("-") {
+	// -(-x) is x for every IEEE value, so pairs of minus signs cancel
+	neg := false
+	for p.isOp("-") {
 		p.next()
-		return &Neg{X: p.parseUnary()}
+		neg = !neg
 	}
-	return p.parseUnion()
+	x := p.parseUnion()
+	if neg {
+		return &Neg{X: x}
+	}
+	return x
 }
 
 func (p *parser) parseUnion() Expr { return p.binLevel([]string{"|"}, p.parsePathExpr) }
